@@ -180,6 +180,13 @@ func init() {
 				cases = append(cases, Case{ID: "portion-literal " + strings.Join(sp, " "), Pkg: "", Fn: "ZZC06Literal", Args: []string{script, strings.Join(exp, ",")}, Tag: "portion-literal-text"})
 				cases = append(cases, Case{ID: "C06 " + script, Pkg: "", Fn: "ZZAPI", Args: []string{"C06", script, "n=mon:USD"}, Tag: "api-destination-allotment"})
 			}
+			// an allotment whose portions do not add up to one, nested in a clause of another allotment (its share may be zero)
+			for _, d := range []string{"{ 1/2 to @d 1/2 to { 1/2 to @e 1/3 to @f } }", "{ 1/2 to { 1/2 to @e 1/3 to @f } 1/2 to @d }", "{ $p to { 1/2 to @e 1/3 to @f } remaining to @d }"} {
+				cases = append(cases, apiCase("C06", "api-nested-bad-allotment", []string{sendFixed("USD", "@world", d)}, map[string][2]string{"p": {"portion", "portion:0/1"}}))
+			}
+			for _, sr := range []string{"{ 1/2 from @world 1/2 from { 1/2 from @world 1/3 from @world } }", "{ @world { 1/2 from @a 1/3 from @b } }"} {
+				cases = append(cases, apiCase("C06", "api-nested-bad-allotment", []string{sendFixed("USD", sr, "@z")}, nil))
+			}
 			// portion variables through the API
 			cases = append(cases, apiCase("C06", "api-portion-variable", []string{sendFixed("USD", "@world", "{ $p to @d remaining to @e }")}, map[string][2]string{"p": {"portion", "portion:1/3"}}))
 			// the same portion variable in several clauses of one allotment
